@@ -93,11 +93,44 @@ func gid() uint64 {
 
 func clockNow() time.Time {
 	clockReads.Add(1)
-	if c, ok := clocks.Load(gid()); ok {
+	id := gid()
+	if c, ok := clocks.Load(id); ok {
 		return c.(*vclock).Now()
+	}
+	// A goroutine that the library started itself (an implementation may look two record types up at the same time):
+	// it lives in the history of the goroutine that created it. The traceback names the creator ("created by ... in
+	// goroutine N"); the clock found that way is remembered for this goroutine (ids are never reused).
+	if parent := creatorOf(); parent != 0 {
+		if c, ok := clocks.Load(parent); ok {
+			clocks.Store(id, c)
+			inheritedClocks.Add(1)
+			return c.(*vclock).Now()
+		}
 	}
 	unboundReads.Add(1)
 	return baseTime
+}
+
+var inheritedClocks atomic.Int64
+
+// creatorOf: the id of the goroutine that created the calling one (0 if the traceback does not say).
+func creatorOf() uint64 {
+	buf := make([]byte, 16<<10)
+	b := buf[:runtime.Stack(buf, false)]
+	i := bytes.LastIndex(b, []byte("created by "))
+	if i < 0 {
+		return 0
+	}
+	line := b[i:]
+	if j := bytes.IndexByte(line, '\n'); j >= 0 {
+		line = line[:j]
+	}
+	k := bytes.LastIndex(line, []byte(" in goroutine "))
+	if k < 0 {
+		return 0
+	}
+	n, _ := strconv.ParseUint(string(bytes.TrimSpace(line[k+len(" in goroutine "):])), 10, 64)
+	return n
 }
 
 // bind makes c the clock of the calling goroutine until the returned function is called.
